@@ -1058,6 +1058,27 @@ func (c *Ctx) globalFacts(name string, v Val) {
 		intTable(tb.VarAcceptTable)
 	case "gsHexDecodeMap":
 		intTable(tb.GsHexDecodeMap)
+		// ground lemma (evaluated on this run's table): the map is the hex-digit function
+		canonical := len(tb.GsHexDecodeMap) == 256
+		if canonical {
+			for i, x := range tb.GsHexDecodeMap {
+				want := 256
+				switch {
+				case i >= '0' && i <= '9':
+					want = i - '0'
+				case i >= 'a' && i <= 'f':
+					want = i - 'a' + 10
+				case i >= 'A' && i <= 'F':
+					want = i - 'A' + 10
+				}
+				if x != want {
+					canonical = false
+				}
+			}
+		}
+		if canonical {
+			c.assume("(forall ((i Int)) (! (=> (and (<= 0 i) (< i 256)) (= (select " + v.C[0] + " i) (ite (and (<= 48 i) (<= i 57)) (- i 48) (ite (and (<= 97 i) (<= i 102)) (- i 87) (ite (and (<= 65 i) (<= i 70)) (- i 55) 256))))) :pattern ((select " + v.C[0] + " i))))")
+		}
 	case "byteParsers":
 		ids := make([]int, len(tb.ByteParsers))
 		for i, n := range tb.ByteParsers {
